@@ -17,7 +17,7 @@ def _(c):
     vt_types(c, "function_logger.variable_transformer")
     c.req("D_pos", "function_logger.D >= 1")
     c.req("tol_pos", "tol_mesh > 0")
-    c.req("box_nonempty_when_projecting", "implies(proj, forall(function_logger.D, lambda j: lb[0][j] <= ub[0][j]))", props=["C01", "C17"])
+    c.req("box_nonempty_when_projecting", "implies(proj, forall(function_logger.D, lambda j: lb[0][j] <= ub[0][j]))", props=["C01", "C17", "C14"])
     c.req("log_index", "function_logger.X_max_idx >= -1 and function_logger.X_max_idx < rows(function_logger.X)")
     c.req("inv_vt_order", "forall(function_logger.D, lambda j: function_logger.variable_transformer.orig_lb[0][j] <= function_logger.variable_transformer.orig_ub[0][j])")
     c.req("vt_dim", "function_logger.variable_transformer.D == function_logger.D")
@@ -32,13 +32,17 @@ def _(c):
     A = {"arrspec": (2, [None, "function_logger.D"], "num", False)}
     INBOX = "forall(rows(U_new), function_logger.D, lambda k, j: lb[0][j] <= U_new[k][j] and U_new[k][j] <= ub[0][j])"
     DISTINCT = "forall(rows(U_new), rows(U_new), lambda a, b: implies(a != b, not pteq(row(U_new, a), row(U_new, b))))"
+    FROM = "implies(not proj, forall(rows(U_new), lambda k: exists(rows(U), lambda i: pteq(row(U_new, k), row(U, i)))))"
     # statement contracts: one per filtering stage
-    c.cut("if proj:", "U_new", A, {"in_box": INBOX}, props=["C17", "C01"])
-    c.cut("U_new = U_new[np.sort(idx_sort), :]", "U_new", A, {"in_box": INBOX, "pairwise_distinct": DISTINCT}, props=["C17"])
-    c.cut("if U_new.size > 0:", "U_new", A, {"in_box": INBOX, "pairwise_distinct": DISTINCT}, props=["C17"])
+    c.cut("if proj:", "U_new", A, {"in_box": INBOX, "from_input": FROM}, props=["C17", "C01", "C14"])
+    c.cut("U_new = U_new[np.sort(idx_sort), :]", "U_new", A, {"in_box": INBOX, "pairwise_distinct": DISTINCT, "from_input": FROM}, props=["C17", "C14"])
+    c.cut("if U_new.size > 0:", "U_new", A, {"in_box": INBOX, "pairwise_distinct": DISTINCT, "from_input": FROM}, props=["C17", "C14"])
     # ---- C17 clauses (taken from the property statement) ----
     c.ens("in_box", "forall(rows(result), function_logger.D, lambda k, j: lb[0][j] <= result[k][j] and result[k][j] <= ub[0][j])",
           top=True, props=["C17", "C01", "C18"])
     c.ens("feasible", "forall(rows(result), lambda k: feasx(invt(row(result, k))))", top=True, props=["C17", "C02"])
+    # C14: without projection the filter only selects - every returned row is one of the rows passed in
+    c.ens("rows_selected_from_input", "implies(not proj, forall(rows(result), lambda k: exists(rows(U), lambda i: pteq(row(result, k), row(U, i)))))",
+          top=True, props=["C14"])
     c.ens("pairwise_distinct", "forall(rows(result), rows(result), lambda a, b: implies(a != b, not pteq(row(result, a), row(result, b))))",
           top=True, props=["C17"])
